@@ -27,4 +27,5 @@ var (
 	ErrExtraValidators       = sdkerrors.Register(moduleName, 14, "non-sprint-end block contains extra validator list") // ErrExtraValidators is returned if non-sprint-end block contain validator data in their extra-data fields
 	ErrInvalidSpanValidators = sdkerrors.Register(moduleName, 15, "invalid validator list on sprint end block")         // ErrInvalidSpanValidators is returned if a block contains an invalid list of validators (i.e. non divisible by 20 bytes)
 	ErrInvalidProof          = sdkerrors.Register(moduleName, 16, "invalid proof")
+	ErrInvalidEpoch          = sdkerrors.Register(moduleName, 17, "invalid epoch")
 )
